@@ -94,6 +94,8 @@ type gsFacts struct {
 	leafAlg                     signature.Algorithm
 	reqKeySpec, reqHash         string
 	chainDER                    [][]byte
+	chainSnap                   [][]byte
+	sigRef, sigSnap             []byte
 }
 
 type geFacts struct {
@@ -104,13 +106,15 @@ type geFacts struct {
 	ctype         string
 	payload       []byte
 	envBytes      []byte
+	envSnap       []byte
 }
 
 type plugin struct {
-	s   *script
-	now time.Time
-	gs  gsFacts
-	ge  geFacts
+	s       *script
+	now     time.Time
+	gs      gsFacts
+	ge      geFacts
+	respAnn map[string]string // the plugin's own map, answered by reference in every generate-envelope response
 }
 
 func (p *plugin) GetMetadata(ctx context.Context, req *pl.GetMetadataRequest) (*pl.GetMetadataResponse, error) {
@@ -259,6 +263,8 @@ func (p *plugin) GenerateSignature(ctx context.Context, req *pl.GenerateSignatur
 	// facts, asked from crypto/x509, notation-core-go and crypto
 	f.keyID = p.s.GSKeyID
 	f.chainDER = chain
+	f.chainSnap = copyBytes2(chain)
+	f.sigRef, f.sigSnap = sig, append([]byte(nil), sig...)
 	f.chainLen = len(chain)
 	f.sigEmpty = len(sig) == 0
 	f.chainParse = true
@@ -325,6 +331,7 @@ func (p *plugin) GenerateEnvelope(ctx context.Context, req *pl.GenerateEnvelopeR
 		f.echo = req.SignatureEnvelopeType
 	}
 	f.envBytes = env
+	f.envSnap = append([]byte(nil), env...)
 	// facts, asked from notation-core-go for the type the signer requested
 	if e, err := signature.ParseEnvelope(p.s.MT, env); err == nil {
 		f.parse = true
@@ -334,7 +341,7 @@ func (p *plugin) GenerateEnvelope(ctx context.Context, req *pl.GenerateEnvelopeR
 			f.payload = c.Payload.Content
 		}
 	}
-	return &pl.GenerateEnvelopeResponse{SignatureEnvelope: env, SignatureEnvelopeType: f.echo, Annotations: map[string]string{"a": "b"}}, nil
+	return &pl.GenerateEnvelopeResponse{SignatureEnvelope: env, SignatureEnvelopeType: f.echo, Annotations: p.respAnn}, nil
 }
 
 // corruptSignature flips one bit inside the signature value of the envelope.
@@ -421,30 +428,113 @@ func digestBits(a digest.Algorithm) int64 {
 type session struct {
 	ps *signer.PluginSigner
 	p  *plugin
+	// caller-owned objects handed to the library by reference; in a history the SAME objects go into consecutive calls
+	ctorCfg map[string]string // plugin config given to NewPluginSigner
+	optsCfg map[string]string // SignerSignOptions.PluginConfig
+	urls    []string          // Descriptor.URLs
+	ann     map[string]string // Descriptor.Annotations (reused while the requested annotations stay the same)
+	annSet  bool
 }
 
 func newSession(keyID string, now time.Time) *session {
-	p := &plugin{now: now}
-	ps, err := signer.NewPluginSigner(p, keyID, map[string]string{"cfg": "1"})
+	p := &plugin{now: now, respAnn: map[string]string{"a": "b", "io.x/plugin": "1"}}
+	se := &session{p: p, ctorCfg: map[string]string{"cfg": "1", "shared": "ctor"}, optsCfg: map[string]string{"shared": "opts", "z": ""},
+		urls: []string{"https://dropped.by.sanitize", "https://second"}}
+	ps, err := signer.NewPluginSigner(p, keyID, se.ctorCfg)
 	if err != nil {
 		panic(err)
 	}
-	return &session{ps: ps, p: p}
+	se.ps = ps
+	return se
 }
 
-func runCase(id int64, s *script, now time.Time, sess *session) (term string, key string, nontrivial bool, ok bool) {
+func copyMap(m map[string]string) map[string]string {
+	if m == nil {
+		return nil
+	}
+	c := make(map[string]string, len(m))
+	for k, v := range m {
+		c[k] = v
+	}
+	return c
+}
+
+func sameMap(a, b map[string]string) bool {
+	if (a == nil) != (b == nil) || len(a) != len(b) {
+		return false
+	}
+	for k, v := range a {
+		if w, ok := b[k]; !ok || w != v {
+			return false
+		}
+	}
+	return true
+}
+
+func copyBytes2(x [][]byte) [][]byte {
+	if x == nil {
+		return nil
+	}
+	c := make([][]byte, len(x))
+	for i := range x {
+		c[i] = append([]byte(nil), x[i]...)
+	}
+	return c
+}
+
+func sameBytes2(a, b [][]byte) bool {
+	if (a == nil) != (b == nil) || len(a) != len(b) {
+		return false
+	}
+	for i := range a {
+		if !bytes.Equal(a[i], b[i]) {
+			return false
+		}
+	}
+	return true
+}
+
+func runCase(id int64, s *script, now time.Time, sess *session) (term string, key string, nontrivial bool, ok bool, frame []string) {
 	if sess == nil {
 		sess = newSession(s.KeyID, now)
 	}
 	p, ps := sess.p, sess.ps
 	p.s, p.gs, p.ge = s, gsFacts{}, geFacts{}
-	ann := s.Desc.Ann
-	if s.AnnEmptyMap && len(ann) == 0 {
-		ann = map[string]string{}
+	want := copyMap(s.Desc.Ann)
+	if s.AnnEmptyMap && len(want) == 0 {
+		want = map[string]string{}
 	}
-	desc := ocispec.Descriptor{MediaType: s.Desc.MT, Digest: digest.Digest(s.Desc.DG), Size: s.Desc.Size, Annotations: ann,
-		URLs: []string{"https://dropped.by.sanitize"}}
-	opts := notation.SignerSignOptions{SignatureMediaType: s.MT}
+	if !sess.annSet || !sameMap(sess.ann, want) {
+		sess.ann, sess.annSet = want, true // otherwise the very same map object goes into this call again
+	}
+	desc := ocispec.Descriptor{MediaType: s.Desc.MT, Digest: digest.Digest(s.Desc.DG), Size: s.Desc.Size, Annotations: sess.ann, URLs: sess.urls}
+	opts := notation.SignerSignOptions{SignatureMediaType: s.MT, PluginConfig: sess.optsCfg}
+	// frame: deep snapshots of every caller-owned object that goes in by reference
+	snapAnn, snapCtor, snapOpts, snapResp := copyMap(sess.ann), copyMap(sess.ctorCfg), copyMap(sess.optsCfg), copyMap(p.respAnn)
+	snapURLs := append([]string(nil), sess.urls...)
+	defer func() {
+		if !sameMap(snapAnn, sess.ann) {
+			frame = append(frame, "descriptor annotations")
+		}
+		if !sameMap(snapCtor, sess.ctorCfg) {
+			frame = append(frame, "plugin config given to NewPluginSigner")
+		}
+		if !sameMap(snapOpts, sess.optsCfg) {
+			frame = append(frame, "SignerSignOptions.PluginConfig")
+		}
+		if !sameMap(snapResp, p.respAnn) {
+			frame = append(frame, "annotations of the plugin's generate-envelope response")
+		}
+		if len(snapURLs) != len(sess.urls) || strings.Join(snapURLs, "\x00") != strings.Join(sess.urls, "\x00") {
+			frame = append(frame, "descriptor URLs")
+		}
+		if p.gs.called && !p.s.GSErr && (!sameBytes2(p.gs.chainSnap, p.gs.chainDER) || !bytes.Equal(p.gs.sigSnap, p.gs.sigRef)) {
+			frame = append(frame, "certificate chain / signature of the plugin's generate-signature response")
+		}
+		if p.ge.called && !p.ge.failed && !bytes.Equal(p.ge.envSnap, p.ge.envBytes) {
+			frame = append(frame, "envelope bytes of the plugin's generate-envelope response")
+		}
+	}()
 	var sig []byte
 	var serr error
 	panicked := false
@@ -494,7 +584,7 @@ func runCase(id int64, s *script, now time.Time, sess *session) (term string, ke
 		if f.verify {
 			t, valid, rep := readTree(f.payload)
 			if !rep {
-				return "", "", false, false
+				return "", "", false, false, nil
 			}
 			if valid {
 				tree = t
@@ -552,7 +642,7 @@ func runCase(id int64, s *script, now time.Time, sess *session) (term string, ke
 	nontrivial = (p.ge.called && !p.ge.failed) || (p.gs.called && !s.GSErr)
 	_ = payloadJSON
 	_ = tree
-	return term, key, nontrivial, true
+	return term, key, nontrivial, true, nil
 }
 
 // retFacts: what notation-core-go and the tree reader say about returned bytes
@@ -835,7 +925,11 @@ func runC18(a *Args) error {
 		{"dispatch", 400000, 240, 3000, scenDispatch},
 	}
 	emit := func(id int64, s *script, sess *session) {
-		term, key, nt, ok := runCase(id, s, now, sess)
+		term, key, nt, ok, frame := runCase(id, s, now, sess)
+		for _, what := range frame {
+			w.ImplViolation(id, "library mutated caller-owned "+what, s, "frame:"+what)
+			w.Count("frame-violation", what)
+		}
 		if !ok {
 			w.Count("skipped", "unrepresentable-payload")
 			return
